@@ -961,6 +961,201 @@ theorem rateLimit_names_ipv4 (s : S_cmd_rateLimitConfig) (e : String)
   simp only [h1, h2, h3, h4, h5, h6, h7, h8]; tr_norm
   simp only [wrapErr, Option.map_none, Option.map_some, firstErr_none, firstErr_some]
 
+/-! ## `serverGroups.streamAddrNum` and `configuration.validateConnLimit` (round 3c)
+
+Translated with the slice types `[]netip.AddrPort` / `[]netip.Prefix` declared symbolic as `List Unit`
+(known by their length only); the three nested range loops are `goRange?` folds. -/
+
+/-- `n += uint64(k)` on a `uint64` counter, as a number below `2^64`. -/
+theorem wrap_add (n k : Int) :
+    goWrapU 18446744073709551616 (n + goWrapU 18446744073709551616 k) = (n + k) % 18446744073709551616 := by
+  unfold goWrapU; omega
+
+/-- Folding `n ↦ (n + cnt x) mod 2^64` adds the sum of the counts. -/
+theorem fold_mod {α : Type} (cnt : α → Nat) :
+    ∀ (xs : List α) (n : Int), 0 ≤ n → n < 18446744073709551616 →
+      xs.foldl (fun n x => (n + (cnt x : Int)) % 18446744073709551616) n =
+        (n + ((xs.map cnt).sum : Nat)) % 18446744073709551616
+  | [], n, h0, h1 => by simp only [List.foldl_nil, List.map_nil, List.sum_nil]; omega
+  | x :: xs, n, h0, h1 => by
+    rw [List.foldl_cons, fold_mod cnt xs _ (by omega) (by omega)]
+    simp only [List.map_cons, List.sum_cons]
+    omega
+
+/-- Stream addresses of one interface entry, one server, one group (nil pointers count as 0: they
+are excluded by `NoNil` where it matters). -/
+def ifaceN : Option S_cmd_serverBindInterface → Nat
+  | some i => i.Subnets.length
+  | none => 0
+def serverN : Option S_cmd_server → Nat
+  | some s => if s.Protocol = "quic" then 0 else s.BindAddresses.length + (s.BindInterfaces.map ifaceN).sum
+  | none => 0
+def groupN : Option S_cmd_serverGroup → Nat
+  | some g => (g.Servers.map serverN).sum
+  | none => 0
+/-- The number `streamAddrNum` is documented to return. -/
+def streamTotal (gs : List (Option S_cmd_serverGroup)) : Nat := (gs.map groupN).sum
+
+/-- No nil pointer among the groups, their servers and the servers' interface entries (what
+`serverGroups.validate` guarantees). -/
+def NoNil (gs : List (Option S_cmd_serverGroup)) : Prop :=
+  ∀ g ∈ gs, ∃ g', g = some g' ∧ ∀ s ∈ g'.Servers, ∃ s', s = some s' ∧ ∀ i ∈ s'.BindInterfaces, i ≠ none
+
+/-- **`streamAddrNum` counts what its comment says**, for every list of groups without nil pointers:
+the bind addresses plus the interface subnets of every server that is not DNS-over-QUIC, as a
+`uint64` (i.e. modulo `2^64`); it does not panic. -/
+theorem streamAddrNum_eq (gs : List (Option S_cmd_serverGroup)) (h : NoNil gs) :
+    serverGroups_streamAddrNum gs = some ((streamTotal gs : Int) % 18446744073709551616) := by
+  unfold serverGroups_streamAddrNum
+  simp only [goRange?]
+  rw [(goRangeFrom?_fold (fun n : Int => 0 ≤ n ∧ n < 18446744073709551616)
+    (fun n g => (n + (groupN g : Int)) % 18446744073709551616) _ gs 0 0 ⟨by omega, by omega⟩ ?_).1]
+  · simp only [fold_mod groupN gs 0 (by omega) (by omega), streamTotal, Int.zero_add]
+  · intro n i g hg hn
+    obtain ⟨g', rfl, hg'⟩ := h g hg
+    simp only [Option.bind_some]
+    rw [(goRangeFrom?_fold (fun n : Int => 0 ≤ n ∧ n < 18446744073709551616)
+      (fun n s => (n + (serverN s : Int)) % 18446744073709551616) _ g'.Servers 0 n hn ?_).1]
+    · simp only [fold_mod serverN g'.Servers n hn.1 hn.2, groupN]
+      exact ⟨trivial, by omega⟩
+    · intro n i s hs hn
+      obtain ⟨s', rfl, hs'⟩ := hg' s hs
+      simp only [Option.bind_some]
+      by_cases hq : s'.Protocol = "quic"
+      · simp only [hq, decide_true, if_true, serverN]
+        exact ⟨by congr 2; omega, by omega⟩
+      · simp only [hq, decide_false, Bool.false_eq_true, if_false, wrap_add]
+        have hn1 : 0 ≤ (n + (s'.BindAddresses.length : Int)) % 18446744073709551616 ∧
+            (n + (s'.BindAddresses.length : Int)) % 18446744073709551616 < 18446744073709551616 := by omega
+        rw [(goRangeFrom?_fold (fun n : Int => 0 ≤ n ∧ n < 18446744073709551616)
+          (fun n i => (n + (ifaceN i : Int)) % 18446744073709551616) _ s'.BindInterfaces 0 _ hn1 ?_).1]
+        · simp only [fold_mod ifaceN s'.BindInterfaces _ hn1.1 hn1.2, serverN, hq, if_false]
+          exact ⟨by congr 2; omega, by omega⟩
+        · intro n i x hx hn
+          cases x with
+          | none => exact absurd rfl (hs' none hx)
+          | some x' =>
+            simp only [Option.bind_some, wrap_add, ifaceN]
+            exact ⟨trivial, by omega⟩
+
+/-- Below `2^64` addresses (every real configuration) the result is the count itself. -/
+theorem streamAddrNum_exact (gs : List (Option S_cmd_serverGroup)) (h : NoNil gs)
+    (hlt : (streamTotal gs : Int) < 18446744073709551616) :
+    serverGroups_streamAddrNum gs = some (streamTotal gs : Int) := by
+  rw [streamAddrNum_eq gs h, Int.emod_eq_of_lt (by omega) hlt]
+
+/-- A nil group, or a nil server in a group, is dereferenced: a panic. -/
+example : serverGroups_streamAddrNum [none] = none := by decide
+example : serverGroups_streamAddrNum
+    [some { DDR := none, TLS := none, Name := "g", FilteringGroup := "f", Servers := [none], ProfilesEnabled := false }] = none := by
+  decide
+
+/-- A server of the distributed configuration. -/
+def genSrv (proto : String) (addrs : List Unit) (ifaces : List (Option S_cmd_serverBindInterface)) : Option S_cmd_server :=
+  some { DNSCrypt := none, Name := "srv", Protocol := proto, BindAddresses := addrs, BindInterfaces := ifaces,
+         LinkedIPEnabled := false }
+
+/-- The server groups of the model's configuration space: one group; server 0 (plain DNS) bound to
+two subnets of one interface listener, servers 1 and 2 on one address, server 3 on two, and the two
+DNSCrypt servers on one address each. -/
+def genGroups (c : Config) : List (Option S_cmd_serverGroup) :=
+  [some { DDR := none, TLS := none, Name := "adguard_dns_default", FilteringGroup := c.sgFg, ProfilesEnabled := false,
+          Servers := [genSrv "dns" [] [some { ID := c.bi0Id, Subnets := [(), ()] }],
+                      genSrv c.proto1 [()] [], genSrv c.proto2 [()] [], genSrv c.proto3 [(), ()] [],
+                      genSrv "dnscrypt" [()] [], genSrv "dnscrypt" [()] []] }]
+
+theorem genGroups_noNil (c : Config) : NoNil (genGroups c) := by
+  intro g hg
+  simp only [genGroups, List.mem_singleton] at hg
+  subst hg
+  refine ⟨_, rfl, ?_⟩
+  intro s hs
+  simp only [List.mem_cons, List.not_mem_nil, or_false, genSrv] at hs
+  rcases hs with rfl | rfl | rfl | rfl | rfl | rfl <;> refine ⟨_, rfl, ?_⟩ <;> simp
+
+theorem streamTotal_gen (c : Config) : (streamTotal (genGroups c) : Int) = streamN c := by
+  simp only [streamTotal, genGroups, genSrv, groupN, serverN, ifaceN, streamN, List.map_cons, List.map_nil,
+    List.sum_cons, List.sum_nil, List.length_cons, List.length_nil]
+  by_cases h1 : c.proto1 = "quic" <;> by_cases h2 : c.proto2 = "quic" <;> by_cases h3 : c.proto3 = "quic" <;>
+    simp [h1, h2, h3]
+
+theorem streamN_small (c : Config) : streamN c < 18446744073709551616 := by
+  unfold streamN; split <;> split <;> split <;> omega
+
+/-- **The model's `streamN` is the translated `streamAddrNum`** on the model's configurations (all
+protocol names of servers 1–3). -/
+theorem streamN_tr (c : Config) : serverGroups_streamAddrNum (genGroups c) = some (streamN c) := by
+  rw [streamAddrNum_exact _ (genGroups_noNil c) (by rw [streamTotal_gen]; exact streamN_small c), streamTotal_gen]
+
+/-- A whole configuration with the given `ratelimit` section and server groups (the other sections
+are not looked at by `validateConnLimit`). -/
+def confOf (rl : Option S_cmd_rateLimitConfig) (gs : List (Option S_cmd_serverGroup)) : Option S_cmd_configuration :=
+  some { RateLimit := rl, Cache := none, Upstream := none, DNSDB := none, DNS := none, Backend := none, QueryLog := none,
+         GeoIP := none, Check := none, Web := none, SafeBrowsing := none, AdultBlocking := none, Filters := none,
+         ConnectivityCheck := none, InterfaceListeners := none, Network := none, Access := none,
+         FilteringGroups := [], ServerGroups := gs }
+
+/-- The exact panic guard of `validateConnLimit`: a nil configuration, a missing `ratelimit` or
+`connection_limit` section ("the rest of c must be valid"), or — only when the limit is enabled — a
+panic of `streamAddrNum`. -/
+theorem validateConnLimit_panics_iff (c : Option S_cmd_configuration) :
+    configuration_validateConnLimit c = none ↔
+      ∀ c', c = some c' → ∀ rl, c'.RateLimit = some rl → ∀ cl, rl.ConnectionLimit = some cl →
+        cl.Enabled = true ∧ serverGroups_streamAddrNum c'.ServerGroups = none := by
+  unfold configuration_validateConnLimit
+  cases c with
+  | none => simp
+  | some c' =>
+    cases hrl : c'.RateLimit with
+    | none => simp [hrl]
+    | some rl =>
+      cases hcl : rl.ConnectionLimit with
+      | none => simp [hrl, hcl]
+      | some cl =>
+        cases he : cl.Enabled <;> cases hn : serverGroups_streamAddrNum c'.ServerGroups <;>
+          simp [hrl, hcl, he, hn]
+        split <;> simp
+
+/-- **What `validateConnLimit` accepts**, for every valid configuration: the limit is disabled, or
+`resume` is at least the number of stream addresses. -/
+theorem validateConnLimit_accepts (c' : S_cmd_configuration) (rl : S_cmd_rateLimitConfig) (cl : S_cmd_connLimitConfig)
+    (h1 : c'.RateLimit = some rl) (h2 : rl.ConnectionLimit = some cl) (h3 : NoNil c'.ServerGroups)
+    (h4 : (streamTotal c'.ServerGroups : Int) < 18446744073709551616) :
+    configuration_validateConnLimit (some c') ≠ none ∧
+    (configuration_validateConnLimit (some c') = some none ↔
+      (cl.Enabled = false ∨ (streamTotal c'.ServerGroups : Int) ≤ cl.Resume)) := by
+  unfold configuration_validateConnLimit
+  cases he : cl.Enabled <;> simp [h1, h2, he, streamAddrNum_exact _ h3 h4]
+  split <;> simp <;> omega
+
+/-- **The model's `valConnN` accepts exactly when the translated `validateConnLimit` does**, on the
+model's configurations with the `ratelimit` and `connection_limit` sections present. -/
+theorem validateConnLimit_tr (c : Config) (r : Bool) (hp : c.pRl = true) (hq : c.pCl = true) :
+    valConnN false c = [] ↔ configuration_validateConnLimit (confOf (genRl c r) (genGroups c)) = some none := by
+  obtain ⟨rl, hrl, hcl'⟩ : ∃ rl, genRl c r = some rl ∧ rl.ConnectionLimit = genConn c := by
+    unfold genRl; rw [if_pos hp]; exact ⟨_, rfl, rfl⟩
+  have hcl : genConn c = some { Stop := c.clStop, Resume := c.clResume, Enabled := c.clEnabled } := by
+    unfold genConn; rw [if_pos hq]
+  have h := (validateConnLimit_accepts
+    { RateLimit := genRl c r, Cache := none, Upstream := none, DNSDB := none, DNS := none, Backend := none, QueryLog := none,
+      GeoIP := none, Check := none, Web := none, SafeBrowsing := none, AdultBlocking := none, Filters := none,
+      ConnectivityCheck := none, InterfaceListeners := none, Network := none, Access := none,
+      FilteringGroups := [], ServerGroups := genGroups c } rl _ hrl (hcl'.trans hcl) (genGroups_noNil c)
+    (by rw [streamTotal_gen]; exact streamN_small c)).2
+  unfold confOf
+  rw [h, streamTotal_gen]
+  unfold valConnN
+  cases he : c.clEnabled <;> simp
+
+/-- Non-trivial instances: the distributed file has 6 stream addresses (server 3 is DNS-over-QUIC) and
+`resume: 800`; with `resume: 5` it is rejected, with server 3 on TLS the count is 8. -/
+example : serverGroups_streamAddrNum (genGroups dist) = some 6 := by decide
+example : serverGroups_streamAddrNum (genGroups { dist with proto3 := "tls" }) = some 8 := by decide
+example : configuration_validateConnLimit (confOf (genRl dist false) (genGroups dist)) = some none := by decide
+example : (configuration_validateConnLimit (confOf (genRl { dist with clResume := 5 } false) (genGroups dist))).map (·.isSome) =
+    some true := by decide
+example : dist.pRl = true ∧ dist.pCl = true ∧ dist.clEnabled = true := by decide
+
 end Agd.Tie.TrC20
 
 #print axioms Agd.Tie.TrC20.translation_complete
@@ -1055,3 +1250,14 @@ end Agd.Tie.TrC20
 #print axioms Agd.Tie.TrC20.subnetKey_panics_iff
 #print axioms Agd.Tie.TrC20.missing_reported
 #print axioms Agd.Tie.TrC20.rateLimit_names_ipv4
+#print axioms Agd.Tie.TrC20.wrap_add
+#print axioms Agd.Tie.TrC20.fold_mod
+#print axioms Agd.Tie.TrC20.streamAddrNum_eq
+#print axioms Agd.Tie.TrC20.streamAddrNum_exact
+#print axioms Agd.Tie.TrC20.genGroups_noNil
+#print axioms Agd.Tie.TrC20.streamTotal_gen
+#print axioms Agd.Tie.TrC20.streamN_small
+#print axioms Agd.Tie.TrC20.streamN_tr
+#print axioms Agd.Tie.TrC20.validateConnLimit_panics_iff
+#print axioms Agd.Tie.TrC20.validateConnLimit_accepts
+#print axioms Agd.Tie.TrC20.validateConnLimit_tr
